@@ -80,6 +80,7 @@ static void checkAllOnce(const char* when) {
       std::string cls = std::string(apiName(t.api)) + (t.starts == 0 ? ":lost" : (t.starts > 1 ? ":dup" : ":unfinished"));
       sim_fail(cls.c_str(), "%s: task %d (%s) starts=%d finishes=%d", when, i, apiName(t.api), t.starts, t.finishes);
     }
+    tagObserve(i);
   }
 }
 
